@@ -17,58 +17,71 @@ pub(super) struct Lowered {
 
 // Lowers the instruction kinds used by the windows below.  A jump to label "L" lands one past
 // the fall-through slot that follows the window.
-pub(super) fn lower(lines: &Vec<Line>) -> Lowered {
-    let mut prog: Vec<Instr> = Vec::with_capacity(6);
-    let mut ints: Vec<AbraInt> = Vec::with_capacity(4);
+// one line -> one VM instruction; constants are appended to `ints`
+pub(super) fn lower_one(lines: &Vec<Line>, k: usize, ints: &mut [AbraInt; 4], nints: &mut usize) -> Instr {
     let n = lines.len();
-    let target = ProgramCounter(n as u32 + 1);
-    let mut k = 0;
-    while k < n {
-        let Line::Instr { instr, .. } = &lines[k] else { panic!("label inside a window") };
-        let vi = match instr {
-            AInstr::Pop => Instr::Pop,
-            AInstr::Duplicate => Instr::Duplicate,
-            AInstr::LoadOffset(o) => Instr::LoadOffset(*o),
-            AInstr::StoreOffset(o) => Instr::StoreOffset(*o),
-            AInstr::StoreOffsetImm(o, c) => { ints.push(*c); Instr::StoreOffsetImm(*o, (ints.len() - 1) as u16) }
-            AInstr::PushNil(c) => Instr::PushNil(*c),
-            AInstr::PushBool(b) => Instr::PushBool(*b),
-            AInstr::PushInt(c) => { ints.push(*c); Instr::PushInt((ints.len() - 1) as u32) }
-            AInstr::Not(d, r) => Instr::Not(d.encode(), r.encode()),
-            AInstr::Jump(_) => Instr::Jump(target),
-            AInstr::JumpIf(_) => Instr::JumpIf(target),
-            AInstr::JumpIfFalse(_) => Instr::JumpIfFalse(target),
-            AInstr::AddInt(d, a, b) => Instr::AddInt(d.encode(), a.encode(), b.encode()),
-            AInstr::AddIntImm(d, a, c) => { ints.push(*c); Instr::AddIntImm(d.encode(), a.encode(), (ints.len() - 1) as u16) }
-            AInstr::SubInt(d, a, b) => Instr::SubtractInt(d.encode(), a.encode(), b.encode()),
-            AInstr::SubIntImm(d, a, c) => { ints.push(*c); Instr::SubIntImm(d.encode(), a.encode(), (ints.len() - 1) as u16) }
-            AInstr::MulInt(d, a, b) => Instr::MulInt(d.encode(), a.encode(), b.encode()),
-            AInstr::MulIntImm(d, a, c) => { ints.push(*c); Instr::MulIntImm(d.encode(), a.encode(), (ints.len() - 1) as u16) }
-            AInstr::DivInt(d, a, b) => Instr::DivideInt(d.encode(), a.encode(), b.encode()),
-            AInstr::DivIntImm(d, a, c) => { ints.push(*c); Instr::DivideIntImm(d.encode(), a.encode(), (ints.len() - 1) as u16) }
-            AInstr::Modulo(d, a, b) => Instr::Modulo(d.encode(), a.encode(), b.encode()),
-            AInstr::ModuloImm(d, a, c) => { ints.push(*c); Instr::ModuloImm(d.encode(), a.encode(), (ints.len() - 1) as u16) }
-            AInstr::LessThanInt(d, a, b) => Instr::LessThanInt(d.encode(), a.encode(), b.encode()),
-            AInstr::LessThanIntImm(d, a, c) => { ints.push(*c); Instr::LessThanIntImm(d.encode(), a.encode(), (ints.len() - 1) as u16) }
-            AInstr::GreaterThanOrEqualInt(d, a, b) => Instr::GreaterThanOrEqualInt(d.encode(), a.encode(), b.encode()),
-            AInstr::GreaterThanOrEqualIntImm(d, a, c) => { ints.push(*c); Instr::GreaterThanOrEqualIntImm(d.encode(), a.encode(), (ints.len() - 1) as u16) }
-            AInstr::EqualInt(d, a, b) => Instr::EqualInt(d.encode(), a.encode(), b.encode()),
-            AInstr::EqualIntImm(d, a, c) => { ints.push(*c); Instr::EqualIntImm(d.encode(), a.encode(), (ints.len() - 1) as u16) }
-            AInstr::ArrayPush(a, b) => Instr::ArrayPush(a.encode(), b.encode()),
-            AInstr::ArrayPushIntImm(a, c) => { ints.push(*c); Instr::ArrayPushIntImm(a.encode(), (ints.len() - 1) as u16) }
-            AInstr::ArrayLength(d, a) => Instr::ArrayLength(d.encode(), a.encode()),
-            AInstr::GetIndex(a, b) => Instr::GetIndex(a.encode(), b.encode()),
-            AInstr::SetIndex(a, b) => Instr::SetIndex(a.encode(), b.encode()),
-            AInstr::GetField(i, r) => Instr::GetField(*i, r.encode()),
-            AInstr::SetField(i, r) => Instr::SetField(*i, r.encode()),
-            _ => panic!("instruction kind not supported by the window lowering"),
-        };
-        prog.push(vi);
-        k += 1;
+    if k >= n {
+        return Instr::Stop; // fall-through slot (pc == n) and jump target (pc == n + 1)
     }
-    prog.push(Instr::Stop); // fall-through slot (pc == n)
-    prog.push(Instr::Stop); // jump target   (pc == n + 1)
-    Lowered { prog, ints }
+    let target = ProgramCounter(n as u32 + 1);
+    let Line::Instr { instr, .. } = &lines[k] else { panic!("label inside a window") };
+    let mut konst = |c: AbraInt| -> u16 {
+        ints[*nints] = c;
+        *nints += 1;
+        (*nints - 1) as u16
+    };
+    let vi = match instr {
+        AInstr::Pop => Instr::Pop,
+        AInstr::Duplicate => Instr::Duplicate,
+        AInstr::LoadOffset(o) => Instr::LoadOffset(*o),
+        AInstr::StoreOffset(o) => Instr::StoreOffset(*o),
+        AInstr::StoreOffsetImm(o, c) => Instr::StoreOffsetImm(*o, konst(*c)),
+        AInstr::PushNil(c) => Instr::PushNil(*c),
+        AInstr::PushBool(b) => Instr::PushBool(*b),
+        AInstr::PushInt(c) => Instr::PushInt(konst(*c) as u32),
+        AInstr::Not(d, r) => Instr::Not(d.encode(), r.encode()),
+        AInstr::Jump(_) => Instr::Jump(target),
+        AInstr::JumpIf(_) => Instr::JumpIf(target),
+        AInstr::JumpIfFalse(_) => Instr::JumpIfFalse(target),
+        AInstr::AddInt(d, a, b) => Instr::AddInt(d.encode(), a.encode(), b.encode()),
+        AInstr::AddIntImm(d, a, c) => Instr::AddIntImm(d.encode(), a.encode(), konst(*c)),
+        AInstr::SubInt(d, a, b) => Instr::SubtractInt(d.encode(), a.encode(), b.encode()),
+        AInstr::SubIntImm(d, a, c) => Instr::SubIntImm(d.encode(), a.encode(), konst(*c)),
+        AInstr::MulInt(d, a, b) => Instr::MulInt(d.encode(), a.encode(), b.encode()),
+        AInstr::MulIntImm(d, a, c) => Instr::MulIntImm(d.encode(), a.encode(), konst(*c)),
+        AInstr::DivInt(d, a, b) => Instr::DivideInt(d.encode(), a.encode(), b.encode()),
+        AInstr::DivIntImm(d, a, c) => Instr::DivideIntImm(d.encode(), a.encode(), konst(*c)),
+        AInstr::Modulo(d, a, b) => Instr::Modulo(d.encode(), a.encode(), b.encode()),
+        AInstr::ModuloImm(d, a, c) => Instr::ModuloImm(d.encode(), a.encode(), konst(*c)),
+        AInstr::LessThanInt(d, a, b) => Instr::LessThanInt(d.encode(), a.encode(), b.encode()),
+        AInstr::LessThanIntImm(d, a, c) => Instr::LessThanIntImm(d.encode(), a.encode(), konst(*c)),
+        AInstr::GreaterThanOrEqualInt(d, a, b) => Instr::GreaterThanOrEqualInt(d.encode(), a.encode(), b.encode()),
+        AInstr::GreaterThanOrEqualIntImm(d, a, c) => Instr::GreaterThanOrEqualIntImm(d.encode(), a.encode(), konst(*c)),
+        AInstr::EqualInt(d, a, b) => Instr::EqualInt(d.encode(), a.encode(), b.encode()),
+        AInstr::EqualIntImm(d, a, c) => Instr::EqualIntImm(d.encode(), a.encode(), konst(*c)),
+        AInstr::ArrayPush(a, b) => Instr::ArrayPush(a.encode(), b.encode()),
+        AInstr::ArrayPushIntImm(a, c) => Instr::ArrayPushIntImm(a.encode(), konst(*c)),
+        AInstr::ArrayLength(d, a) => Instr::ArrayLength(d.encode(), a.encode()),
+        AInstr::GetIndex(a, b) => Instr::GetIndex(a.encode(), b.encode()),
+        AInstr::SetIndex(a, b) => Instr::SetIndex(a.encode(), b.encode()),
+        AInstr::GetField(i, r) => Instr::GetField(*i, r.encode()),
+        AInstr::SetField(i, r) => Instr::SetField(*i, r.encode()),
+        _ => panic!("instruction kind not supported by the window lowering"),
+    };
+    norm(vi)
+}
+
+// Lowers a window of <= 4 lines.  A jump to label "L" lands one past the fall-through slot that follows the window.
+// The program is a vec! literal (no loop, no push): CBMC must see each instruction as a constant.
+pub(super) fn lower(lines: &Vec<Line>) -> Lowered {
+    assert!(lines.len() <= 4);
+    let mut ints: [AbraInt; 4] = [0; 4];
+    let mut nints = 0usize;
+    let i0 = lower_one(lines, 0, &mut ints, &mut nints);
+    let i1 = lower_one(lines, 1, &mut ints, &mut nints);
+    let i2 = lower_one(lines, 2, &mut ints, &mut nints);
+    let i3 = lower_one(lines, 3, &mut ints, &mut nints);
+    Lowered { prog: vec![i0, i1, i2, i3, Instr::Stop, Instr::Stop], ints: vec![ints[0], ints[1], ints[2], ints[3]] }
 }
 
 pub(super) struct Outcome {
